@@ -61,6 +61,11 @@ CHECKS = {
    text="Exhaustive within the bound: truncate for all s of length <=4 (quick) / <=6 (thorough) over {ASCII, multi-byte, combining, invalid byte} x size in [-2, N+6] x trails of length 0..4 / 0..8 (22k / 740k cases): real result equals the model's and satisfies the statement (byte prefix at a character boundary + trail, bounded length). All strings of length <=3 / <=4 over 15 character classes for htmlEscape (no raw specials, every & an entity, decodes back), jsEscape (no raw < > & =, no unescaped quote or line break), raw (byte identity through a template). 555 JSON values: toJSON is valid JSON, decodes back to the value, has no raw < > &.",
    note="Encode/decode fidelity is decided by Go's decoders on TLC-generated inputs, not by the model (stated limit of the technique, DESIGN §7). Strings longer than the bound and sizes up to 70 are not enumerated.",
    design="§6 C20"),
+ "C13": dict(
+   technique="TLC explicit-state model checking of the cache/template machine (Cache.tla, CacheMC.tla: invariants OwnText, SameSource, action property Immutable) with every history replayed on the real Parse/Render/Exec/Clone API over a corpus of TLC-generated programs; TLC trace validation (CacheTrace.tla) of Parse/CacheSet events recorded by the verif hooks from the repository's tests",
+   text="Exhaustive within the bound: every history of <=3 (quick) / <=4 (thorough) operations {Parse, Render, Exec, Clone, Toggle} over 3 texts x 2 data sets plus seeded random walks; on the real code the outcome of each Parse (fresh / hit / inserted) must be the model's, all results for equal (text, data) must be identical (output, error text, helper-call order), and the deep structural hash of the parsed program (verif accessor) must be unchanged by every Exec. Every corpus program (about 200 quick / 2400 thorough, from the loop/fault/scope/text/function/route generators plus hash literals with side effects and duplicate keys) is executed 8 times over fresh parse, repeated Exec, Clone, cache cold/warm. The repository suite's cache events are accepted by the trace spec; a corrupted trace is rejected.",
+   note="Trusted: TLC, the reflection-based tree hash, the hooks. Go map iteration order dependence is caught probabilistically (8 executions). Programs that loop over Go maps are compared as sets in C08 and excluded here.",
+   design="§6 C13"),
 }
 
 NOT_YET = "check not built yet in this session (work in progress, see DESIGN.md §8)"
